@@ -175,6 +175,15 @@ def read_input(ctx, want):
                 fams['read.nopanic'].candidates.append(Candidate('read.nopanic', 'panic', f'read_input panics: {d.notes}', {}, unmodelled=(d.havoc or [None])[0]))
             continue
         if d.status != 'returned':
+            if d.havoc:
+                # a loop over calls the scenario has no model for (a helper that scans the input itself) ran to the visit bound:
+                # undecided here; the first family asked for carries the candidate, the native replay decides
+                name0 = next(iter(fams))
+                if not any(c.role == 'unmodelled-loop' for c in fams[name0].candidates):
+                    fams[name0].obligations += 1; fams[name0].witnesses += 1
+                    fams[name0].candidates.append(Candidate(name0, 'unmodelled-loop', f'read_input runs a loop over {d.havoc[0]} that the scenario cannot follow (path ended as {d.status})',
+                                                            {'policy': 0, 'only_objects_and_arrays': True, 'outcomes': ['value:Object', 'end']}, unmodelled=d.havoc[0]))
+                continue
             raise Broken(f'read_input path ended as {d.status} {d.notes}')
         retd = ex.discr(d, d.ret).t
         evs = d.events
@@ -321,3 +330,18 @@ def replay_readinput(ctx, cands):
         c.replay = {'argv': argv, 'stdin': show(stdin + extra), 'env': env, 'expected': {'result': exp_result, 'rows': exp_rows, 'error_lines>0': exp_err_lines > 0},
                     'actual': {'result': r['result'], 'rows': got_rows, 'error_lines': got_err_lines, 'error_lines_on_wrong_stream': wrong_stream, 'pulled': r['pulled']}}
         c.status = 'reproduced' if bad else 'unit'
+        if not bad and c.unmodelled:
+            # the path went through calls the scenario has no model for (a fast path that looks at the input itself): the same
+            # policy and options on values that are hard to skip - strings ending in an escaped backslash, escaped quotes, nested text
+            import json as _json
+            TRICKY = ['"a\\\\"', '{"k":1}', '"x\\"y"', '[2]', '"\\\\"', '3', '{"s":"q\\\\","t":"\\""}', '"]"', '[["\\\\"]]', 'true', '"{"', '{"a":"}"}', '"\\u005c"', '[3]', '""', '{"z":[]}']
+            argv2 = [a for a in argv if a != '--take' and not a.isdigit()]
+            r2 = run_driver(ctx, argv2, ' '.join(TRICKY).encode())
+            want = [_json.loads(t) for t in TRICKY if not ooa or t[0] in '{[']
+            got2 = []
+            for ln in show(r2['stdout']).splitlines():
+                if ln.startswith('error:'): continue
+                try: got2.append(_json.loads(ln))
+                except Exception: got2.append('unparsable:' + ln)
+            if got2 != want or r2['result'] != 'ok' or r2['stderr']:
+                c.replay = {'argv': argv2, 'stdin': ' '.join(TRICKY), 'expected_rows': want, 'actual_rows': got2, 'result': r2['result'], 'stderr': show(r2['stderr'])[:200]}; c.status = 'reproduced'
